@@ -5,7 +5,8 @@
 //	tick <ms>
 //	load <n> <rule>*n      hotspot.LoadRules on the module as it is (the first load of a case finds it empty); rule = res=..,cb=..,idx=..,key=..,T=..,burst=..,D=..,mq=..,cap=..,items=<-|val@int;…>
 //	onsleep <n> <rule>*n   arm: LoadRules(these) runs from inside the clock's Sleep of the next queued request
-//	entry <res> <batch> <nargs> <val|+>* <natt> <key=val>*   (`+` starts another WithArgs option)
+//	attmap <name> <n> <key=val>*n   a caller-owned attachments map, passed (the same object) by every later `@name`
+//	entry <res> <batch> <nargs> <val|+>* <natt> <att>*   (`+` starts another WithArgs option; att = key=val | @name | !key=val)
 //	sweep <res> <batch> <prefix> <lo> <hi>   one entry per k in [lo,hi) with the single argument <prefix>k; run-length encoded results
 //
 // A value is `v:<kind>:<text>`: i int, l int64, s string, b bool, f float64 bits, t struct{A int;B string}, n nil.
@@ -70,6 +71,7 @@ type Interp struct {
 	clk    *spinClock
 	labels map[*hotspot.Rule]int // every rule object loaded in this case -> generation*1000 + position
 	gen    int
+	maps   map[string]map[interface{}]interface{} // caller-owned attachment maps (`attmap`), passed as they are
 	fired  int // rules in force after the armed reload ran during the current entry, -1 if it did not run
 }
 
@@ -87,6 +89,7 @@ func (it *Interp) Reset() {
 	stat.ResetResourceNodeMap()
 	it.labels = map[*hotspot.Rule]int{}
 	it.gen = 0
+	it.maps = map[string]map[interface{}]interface{}{}
 	it.clk.onSleep = nil
 	it.clk.Sleeps = nil
 }
@@ -195,14 +198,12 @@ func (it *Interp) load(specs []string) int {
 }
 
 // entry performs one api.Entry and renders the decision, the triggering rule and the requested sleeps.
-func (it *Interp) entry(res string, batch uint32, args [][]interface{}, atts map[interface{}]interface{}) string {
+func (it *Interp) entry(res string, batch uint32, args [][]interface{}, atts []sentinel.EntryOption) string {
 	opts := []sentinel.EntryOption{sentinel.WithBatchCount(batch)}
 	for _, g := range args {
 		opts = append(opts, sentinel.WithArgs(g...))
 	}
-	if len(atts) > 0 {
-		opts = append(opts, sentinel.WithAttachments(atts))
-	}
+	opts = append(opts, atts...)
 	it.clk.Sleeps = it.clk.Sleeps[:0]
 	it.clk.reads, it.clk.spun = 0, false
 	it.fired = -1
@@ -294,15 +295,51 @@ func (it *Interp) Step(t []string, op string) string {
 		if len(rest) != nt {
 			panic("bad entry")
 		}
-		var atts map[interface{}]interface{}
-		if nt > 0 {
-			atts = make(map[interface{}]interface{}, nt)
-			for _, kv := range rest {
-				i := strings.Index(kv, "=")
-				atts[kv[:i]] = val(kv[i+1:])
+		// attachment options, left to right: @name = WithAttachments(the caller-owned map itself), !k=v = WithAttachment,
+		// a run of plain k=v = one WithAttachments of a map built for this call
+		var atts []sentinel.EntryOption
+		var run map[interface{}]interface{}
+		flush := func() {
+			if run != nil {
+				atts = append(atts, sentinel.WithAttachments(run))
+				run = nil
 			}
 		}
+		for _, tok := range rest {
+			switch {
+			case strings.HasPrefix(tok, "@"):
+				flush()
+				m, ok := it.maps[tok[1:]]
+				if !ok {
+					panic("unknown attachment map " + tok)
+				}
+				atts = append(atts, sentinel.WithAttachments(m))
+			case strings.HasPrefix(tok, "!"):
+				flush()
+				i := strings.Index(tok, "=")
+				atts = append(atts, sentinel.WithAttachment(tok[1:i], val(tok[i+1:])))
+			default:
+				if run == nil {
+					run = map[interface{}]interface{}{}
+				}
+				i := strings.Index(tok, "=")
+				run[tok[:i]] = val(tok[i+1:])
+			}
+		}
+		flush()
 		return it.entry(res, batch, args, atts)
+	case "attmap":
+		n := int(vh.U(t[2]))
+		if len(t) != 3+n {
+			panic("bad attmap")
+		}
+		m := make(map[interface{}]interface{}, n)
+		for _, kv := range t[3:] {
+			i := strings.Index(kv, "=")
+			m[kv[:i]] = val(kv[i+1:])
+		}
+		it.maps[t[1]] = m
+		return ""
 	case "sweep":
 		res := t[1]
 		batch := uint32(vh.U(t[2]))
